@@ -73,7 +73,7 @@ impl C08 {
     /// part that lands in the next file is exactly the byte image of an entry addressed to queue `a`; `b` is then
     /// truncated, the first file is garbage-collected, and the log is restarted. The WAL now BEGINS with the orphan
     /// Last frame of a dead record; it must be dropped, never delivered as an entry.
-    fn orphan_tail_campaign(&self, env: &mut Env, shard: u32, shards: u32) -> Result<(), CaseError> {
+    pub fn orphan_tail_campaign(&self, env: &mut Env, shard: u32, shards: u32) -> Result<(), CaseError> {
         let variants: u32 = if env.tier == Tier::Quick { 16 } else { 256 };
         let file_bytes = crate::util::file_bytes();
         for variant in 0..variants {
